@@ -91,6 +91,14 @@ CHECKS = {
         note="Not a linearizability check. D16 (deque-based containers with >=2 concurrent pushers lose/duplicate/crash) is a listed known "
              "finding, keyed per container and operation mix; single-pusher mixes stay strictly judged.",
         ref="DESIGN.md section 2, C17"),
+    "C11": dict(
+        technique="runtime monitoring: per-index call counters / per-worker count+index-sum for huge shapes, payload equality in every call, "
+                  "continuation ledger (signals, calls returned at signal time), exception identity; ASan/TSan as extra oracles",
+        text="Exploration: thousands of bulk invocations per run over all small shapes, chunk-size boundaries, random shapes, six integral "
+             "shape types, 0/1/3 predecessor values, five ways for the predecessor to reach the pool, throwing index sets, plus single "
+             "shapes beyond 2^31 and 2^32; hook delays inside the index queue's load/CAS window.",
+        note="D3 (32-bit chunk arithmetic) was found here and fixed; shape types narrower than int do not compile and are not judged.",
+        ref="DESIGN.md section 2, C11"),
 }
 
 NOT_YET = "not claimed yet: harness under construction in this session (see DESIGN.md section 2)"
